@@ -488,8 +488,8 @@ fn sweep<'a, 'e, T: IteTable<'a, BddPtr<'a>> + Default>(
         }
         if i % 32 == 0 {
             s.recheck_pool();
-            if ctx.over_time() {
-                s.rep.cap("wall-clock cap inside the pair sweep");
+            if ctx.over_time() || ctx.over_mem() {
+                s.rep.cap("wall-clock or memory cap inside the pair sweep");
                 break;
             }
         }
@@ -571,8 +571,8 @@ fn sweep<'a, 'e, T: IteTable<'a, BddPtr<'a>> + Default>(
                     break 'i;
                 }
             }
-            if ii % 8 == 0 && ctx.over_time() {
-                s.rep.cap("wall-clock cap inside the ite sweep");
+            if ii % 8 == 0 && (ctx.over_time() || ctx.over_mem()) {
+                s.rep.cap("wall-clock or memory cap inside the ite sweep");
                 break;
             }
         }
@@ -897,9 +897,9 @@ fn r1_explore(cfg: &Cfg, depth: usize, reduced_last: bool, ctx: &Ctx) -> Report 
             }
             return;
         }
-        if rep.n_violations > 16 || ctx.over_time() {
-            if ctx.over_time() {
-                rep.cap("wall-clock cap inside R1");
+        if rep.n_violations > 16 || (ctx.over_time() || ctx.over_mem()) {
+            if ctx.over_time() || ctx.over_mem() {
+                rep.cap("wall-clock or memory cap inside R1");
             }
             return;
         }
